@@ -92,8 +92,42 @@ def compensate_from_code_sink_unit():
     ta.TaintRuleApplier.get_sink_tag_by_rules = patched
 
 
+def compensate_arg_to_param_edge():
+    """Compensation switch (classification only): GlobalStmtStates.add_arg_to_param_edge looks for the argument by scanning the
+    whole entry-point SFG for a STATE node with the argument's index and takes the first parent symbol that is used in any call
+    statement; when the argument's state is a copy made at the call (STATE_COPY, which taint propagation does not follow) the
+    only parent symbol is the parameter itself and no edge is made.  The switch additionally adds the SYMBOL_FLOW edge from the
+    argument symbol(s) of the current call statement that point to the state the mapping hands over."""
+    import lian.core.global_stmt_states as gss
+    from lian.common_structs import SFGNode, SFGEdge
+    from lian.config.constants import SFG_NODE_KIND, SFG_EDGE_KIND
+    orig = gss.GlobalStmtStates.add_arg_to_param_edge
+
+    def patched(self, each_pair, status, parameter_name_symbol):
+        orig(self, each_pair, status, parameter_name_symbol)
+        try:
+            ctx = self.frame.get_context()
+            call_stmt_id = getattr(ctx, "call_stmt_id", ctx if isinstance(ctx, int) else -1)
+            g = self.sfg.graph
+            target = SFGNode(node_type=SFG_NODE_KIND.SYMBOL, def_stmt_id=parameter_name_symbol.stmt_id, index=status.defined_symbol,
+                             node_id=parameter_name_symbol.symbol_id, name=parameter_name_symbol.name, context=ctx)
+            for stmt_node in [n for n in g.nodes if n.node_type == SFG_NODE_KIND.STMT and n.def_stmt_id == call_stmt_id]:
+                for node in list(g.predecessors(stmt_node)):
+                    w = g.get_edge_data(node, stmt_node)["weight"]
+                    if node.node_type != SFG_NODE_KIND.SYMBOL or w.edge_type != SFG_EDGE_KIND.SYMBOL_IS_USED or w.pos < 1:
+                        continue
+                    # the argument symbol is the one that points to the state this mapping hands over
+                    if any(x.node_type == SFG_NODE_KIND.STATE and x.node_id == each_pair.arg_state_id for x in g.successors(node)):
+                        self.sfg.add_edge(node, target, SFGEdge(edge_type=SFG_EDGE_KIND.SYMBOL_FLOW, stmt_id=parameter_name_symbol.stmt_id))
+        except Exception:
+            pass
+    gss.GlobalStmtStates.add_arg_to_param_edge = patched
+
+
 COMPENSATIONS = {"state-id-taints-symbol-with-equal-id": compensate_state_id_as_symbol_id,
-                 "from-code-sink-rule": compensate_from_code_sink_unit}
+                 "from-code-sink-rule": compensate_from_code_sink_unit,
+                 "argument-to-parameter-edge-misplaced": compensate_arg_to_param_edge}
+C10_SWITCHES = ("argument-to-parameter-edge-misplaced",)
 
 
 def run_lian_case(case, ruleset, tag, compensate=()):
@@ -169,11 +203,11 @@ def analyse(item):
     """item: (tag, case, level).  Returns plain data: expected (dynamic) pairs, reported pairs, per-gadget verdicts."""
     from lib import gen_flow
     from lib.monitors import taint_shim as ts
-    tag, case, level = item
+    tag, case, level = item[:3]
     rs = gen_flow.rules_for(case, level)
     sites, _ = ts.find_sites(case["files"], rs)
     dyn = ts.run_dynamic(case["files"], case["main"], [tuple(e) for e in case["entries"]], sites)
-    lres = run_lian_case(case, rs, tag)
+    lres = run_lian_case(case, rs, tag, compensate=item[3] if len(item) > 3 else ())
     reported = set(lres["flows"])
     expected = set(dyn.pairs)
     snk_gadget = {tuple(g["snk_at"]): g["gid"] for g in case["gadgets"] if g.get("snk_at")}
@@ -193,7 +227,7 @@ def probe_single(item):
     from lib import gen_flow
     key, g, level, n = item
     case = gen_flow.render_single(9000 + n, g)
-    r = analyse((f"p{n}", case, level))
+    r = analyse((f"p{n}", case, level, tuple(g.get("_comp") or ())))
     return {"key": key, "expected": r["expected"], "missed": r["missed"], "status": r["status"], "case": case}
 
 
@@ -206,6 +240,8 @@ DIM_FIELDS = ("sk", "tk", "pos", "chain", "twist", "src_mode", "snk_mode", "src_
 def norm_gadget(g):
     g2 = {k: g[k] for k in DIM_FIELDS if k in g}
     g2["gid"] = 0
+    if g.get("_comp"):
+        g2["_comp"] = list(g["_comp"])
     ch = []
     from lib import gen_flow
     for i, (c, v) in enumerate(g2["chain"]):
@@ -396,6 +432,13 @@ def attribute(g, atoms):
             return []          # the isolated run died (reported as analysis-died) or showed no dynamic flow (counted)
         if r:
             return [f"{g['sk']}->{g['tk']}:lost-only-among-other-flows"]
+    # a mechanism that a compensation switch cures is named after the switch (its shape in the program is not stable)
+    if len(chain) >= 2:
+        for sw in C10_SWITCHES:
+            r = yield norm_gadget(dict(g, chain=chain, _comp=[sw]))
+            if r is True:
+                sigs.append(f"any->any:mechanism:{sw}")
+                return sigs
     guard = 0
     while guard < 6:
         guard += 1
